@@ -59,6 +59,9 @@ type Event struct {
 	Ows    int    `json:"ows"`  // bytes of the output that belong to no lexeme (whitespace)
 	NumChg int    `json:"nchg"` // number lexemes whose spelling changed
 	Msg    string `json:"msg"`
+	// results of the public minify.Number(lexeme, 0) on the input's number lexemes, in order (texts of one
+	// window without number keeping; design-model drift only)
+	Nn []lib.Bytes `json:"nn"`
 	// raw lexemes of this window (kept last: the driver reads the fields above without parsing these)
 	It []lib.Bytes `json:"it"`
 	Ot []lib.Bytes `json:"ot"`
@@ -326,6 +329,18 @@ func runCase(c Case, tw *lib.TraceWriter, window int) {
 	ev.Ows = len(out)
 	for _, t := range ot {
 		ev.Ows -= len(t)
+	}
+	ev.Nn = []lib.Bytes{}
+	if !c.Keep && !panicked && err == nil && len(it) <= window && len(ot) <= window {
+		for _, t := range it {
+			if jsonNumber.Match(t) {
+				var r []byte
+				cp := append(make([]byte, 0, len(t)), t...)
+				if p, _ := lib.Guard(func() { r = minify.Number(cp, 0) }); !p {
+					ev.Nn = append(ev.Nn, append(lib.Bytes{}, r...))
+				}
+			}
+		}
 	}
 	n := len(it)
 	if len(ot) > n {
